@@ -34,8 +34,8 @@ META = {
     },
     "C04": {
         "sections": ["Arith.Max"],
-        "rule": "L in {1,5,8} (thorough 1..8), every shape of the family without ambiguous spans, every n in [-3L,3L]; additivity with b in {1,-2,L}; Normalize alone on the full family for L in {3,8}. Non-trivial = n not a multiple of L.",
-        "assumptions": ["Go int as unbounded Z", "feature-level clauses (denotation under Expand(0,n).Normalize(L)) are decided by correspondence + oracle; theorems cover the residues"],
+        "rule": "L in {1,5,8} (thorough 1..8), every shape of the family (ambiguous spans whenever they do not cross the new origin), every n in [-3L,3L]; additivity with b in {1,-2,L}; Normalize alone on the full family for L in {3,8}. Non-trivial = n not a multiple of L.",
+        "assumptions": ["Go int as unbounded Z", "PARTIAL: the feature theorems cover join-free locations (order/complement nesting of any depth), ranges shorter than L and ambiguous spans that do not cross the new origin; join(...) in the input and additivity on whole tables are decided by correspondence + oracle"],
     },
     "C05": {
         "sections": ["Tables.complement"],
